@@ -22,7 +22,7 @@ def gen_dat(rng, ctx, pts3, cross, malformed=None):
     ncomp = rng.choice([0, 1, 2, 3, 5])
     ngc = rng.choice([0, 0, 1, 2, 3, 4])
     ngr = rng.choice([0, 1, 2, 3, 5]) if ngc else rng.choice([0, 2])
-    convert = dim == 3 and ctx.sph and rng.random() < 0.5
+    convert = dim == 3 and rng.random() < (0.5 if ctx.sph else 0.25)      # the option converts the row, whatever the world's coordinate system
     sep = rng.choice([' ', ', ', '  ', '\t'])
     lines = []
     lines.append(rng.choice(['# This is a comment in the data', '#', '# a b', '# dim', '# x y z d', '#   ', '# number of', '# convert spherical = false', '# grain compositions']))
@@ -51,6 +51,11 @@ def gen_dat(rng, ctx, pts3, cross, malformed=None):
             d = p[2]
             (x2, z2), _s = wg.section_query(ctx, cross, rng.uniform(-0.2, 1.2), d)
             toks = [fmt_in(rng, x2), fmt_in(rng, z2), fmt_in(rng, d)]
+        elif convert and not ctx.sph:
+            # a cartesian world addressed in (R, longitude, latitude): the row is converted to x, y, z before the library is asked
+            x, y, z = ctx.point(p[0], p[1], p[2])
+            r = math.sqrt(x * x + y * y + z * z) or 1.0
+            toks = [fmt_in(rng, r), fmt_in(rng, math.degrees(math.atan2(y, x))), fmt_in(rng, math.degrees(math.asin(max(-1.0, min(1.0, z / r))))), fmt_in(rng, p[2])]
         elif convert:
             r = ctx.R - p[2]
             toks = [fmt_in(rng, r), fmt_in(rng, p[0]), fmt_in(rng, p[1]), fmt_in(rng, p[2])]
